@@ -163,6 +163,18 @@ CHECKS = {
         note=TB + "; this property is combinational: TLC enumerates shapes and values rather than exploring behaviours.",
         technique="TLA+ spec (recursive packing) + TLC enumeration; exported vectors replayed on the real design; TLC trace validation",
         design="5 (C11)"),
+    "C14": dict(
+        text=("specs/CsrEventMon.tla composes the CsrMux and EventMon specifications by the documented glue; "
+              "TLC model-checks CsrEventMon_MC (conforming CSR initiator interleaved with arbitrary source "
+              "activity, masks spanning several chunks, alignment padding) with history-based statements: enable "
+              "takes the written mask, write-one clears exactly those unless re-triggered, zeros clear nothing, "
+              "irq = enable & pending; real csr.event.EventMonitor instances (0-20 events, 1-32 bit buses, "
+              "alignment 0-2, all trigger modes) attached behind a csr.Decoder and by wiring.connect() to an "
+              "initiator interface are driven by register transactions while sources fire, and every cycle "
+              "(incl. the register addresses reported by the memory map) is validated by TLC."),
+        note=TB + "; the CSR initiator is protocol-conforming, as the property states. A failing wiring.connect is a violation (the property names that attachment).",
+        technique="TLA+ composition of two specs + TLC model checking; TLC trace validation of the real component in both attachments",
+        design="5 (C14)"),
 }
 
 PENDING = "check not built yet in this round; see DESIGN.md section 13 for the build order"
